@@ -79,7 +79,8 @@ Qed.
 
 (* ================= .inkfempre ================= *)
 
-Record pre_node := { wn_id : string; wn_px : string; wn_py : string; wn_cons : string; wn_dofs : string }.
+Record pre_node := { wn_id : string; wn_px : string; wn_py : string; wn_cons : string;
+                     wn_dofs : option string (* equation numbers, for nodes that have them *) }.
 Record wr_material := { wm_name : string; wm_density : string; wm_young : string; wm_shear : string; wm_poisson : string; wm_yield : string; wm_ultimate : string }.
 Record wr_section := { ws_name : string; ws_area : string; ws_istrong : string; ws_iweak : string; ws_sstrong : string; ws_sweak : string }.
 Record pre_bar := { wb_id : string; wb_n1 : string; wb_l1 : string; wb_n2 : string; wb_l2 : string; wb_mat : string; wb_sec : string;
@@ -93,7 +94,9 @@ Definition mat_ctx (m : wr_material) : string * ctxt :=
 Definition sec_ctx (s : wr_section) : string * ctxt :=
   ("", Ctx [("Name", ws_name s); ("Area", ws_area s); ("IStrong", ws_istrong s); ("IWeak", ws_iweak s); ("SStrong", ws_sstrong s); ("SWeak", ws_sweak s)] [] []).
 Definition pre_node_ctx (n : pre_node) : string * ctxt :=
-  ("", Ctx [("GetID", wn_id n); ("Position.X", wn_px n); ("Position.Y", wn_py n); ("ExternalConstraint", wn_cons n); ("DegreesOfFreedomNum", wn_dofs n)] [] []).
+  ("", Ctx ([("GetID", wn_id n); ("Position.X", wn_px n); ("Position.Y", wn_py n); ("ExternalConstraint", wn_cons n)] ++
+            match wn_dofs n with Some d => [("DegreesOfFreedomNum", d)] | None => [] end) []
+           [("HasDegreesOfFreedomNum", match wn_dofs n with Some _ => true | None => false end)]).
 Definition pre_bar_ctx (b : pre_bar) : string * ctxt :=
   ("", Ctx [("GetID", wb_id b); ("StartNodeID", wb_n1 b); ("StartLink", wb_l1 b); ("EndNodeID", wb_n2 b); ("EndLink", wb_l2 b);
             ("Material.Name", wb_mat b); ("Section.Name", wb_sec b); ("NodesCount", wb_count b)]
@@ -109,7 +112,8 @@ Definition spec_material (m : wr_material) : string :=
 Definition spec_section (s : wr_section) : string :=
   nl ++ "'" ++ ws_name s ++ "' -> " ++ ws_area s ++ " " ++ ws_istrong s ++ " " ++ ws_iweak s ++ " " ++ ws_sstrong s ++ " " ++ ws_sweak s.
 Definition spec_pre_node (n : pre_node) : string :=
-  nl ++ wn_id n ++ " -> " ++ wn_px n ++ " " ++ wn_py n ++ " " ++ wn_cons n ++ " | " ++ wn_dofs n.
+  nl ++ wn_id n ++ " -> " ++ wn_px n ++ " " ++ wn_py n ++ " " ++ wn_cons n ++
+  match wn_dofs n with Some d => " | " ++ d | None => "" end.
 Definition spec_pre_bar (b : pre_bar) : string :=
   nl ++ wb_id b ++ " -> " ++ wb_n1 b ++ " " ++ wb_l1 b ++ " " ++ wb_n2 b ++ " " ++ wb_l2 b ++ " '" ++ wb_mat b ++ "' '" ++ wb_sec b ++ "' >> " ++ wb_count b ++
   lines (wb_nodes b) ++ nl.
@@ -126,7 +130,8 @@ Proof.
   intros d. unfold render, tmpl_preprocess, pre_ctx, spec_preprocess. destruct (pd_weight d); cbn -[String.concat]; rewrite !map_map, ?append_nil_r.
   all: peel.
   all: try reflexivity.
-  all: try (unfold spec_pre_node, spec_material, spec_section; cbn -[String.concat]; peel; rewrite ?append_nil_r; reflexivity).
+  all: try (unfold spec_material, spec_section; cbn -[String.concat]; peel; rewrite ?append_nil_r; reflexivity).
+  all: try match goal with n : pre_node |- _ => destruct n as [i px py c [d0|]]; unfold spec_pre_node; cbn -[String.concat]; rewrite ?append_nil_r; reflexivity end.
   all: unfold spec_pre_bar, lines; cbn -[String.concat]; rewrite ?map_map; peel;
     try (cbn -[String.concat]; rewrite ?append_nil_r; reflexivity); try reflexivity.
 Qed.
